@@ -47,6 +47,14 @@ def _target_names(t):
   return []
 
 
+def _is_container(v):
+  if isinstance(v, (ast.Dict, ast.List, ast.Set, ast.ListComp, ast.SetComp,
+                    ast.DictComp)):
+    return True
+  return isinstance(v, ast.Call) and (dotted(v.func) or "").split(".")[-1] in (
+      "set", "dict", "list", "defaultdict", "OrderedDict", "bytearray")
+
+
 class Sym:
   """Cheap value provenance for the locals of one function.
 
@@ -97,10 +105,16 @@ class Sym:
       elif isinstance(n, ast.ExceptHandler) and n.name:
         bump(n.name, n)
     self.counts = counts
-    self.sequential = {nm for nm in counts if nm not in nontop}
+    self.defs = {nm: [v for _, v in d] for nm, d in simple.items()}
+    # names bound to a container display / constructor are objects that get
+    # mutated in place: they are never replaced by their initial value
+    containers = {nm for nm, defs in simple.items()
+                  if any(_is_container(v) for _, v in defs)}
+    self.sequential = {nm for nm in counts
+                       if nm not in nontop and nm not in containers}
     self.single = {nm: simple[nm][0][1] for nm in counts
                    if counts[nm] == 1 and nm in simple and nm in nontop
-                   and nm not in self.params}
+                   and nm not in self.params and nm not in containers}
     self.rebound_params = {p for p in self.params if p in counts}
 
   def top_stmt(self, node):
